@@ -26,14 +26,14 @@ CLANG_FLAGS = ['-std=c++17', '-O1', '-fno-access-control', '-fno-vectorize', '-f
 OPT_FLAGS = ['-O1', '-S', '--vectorize-loops=false', '--vectorize-slp=false', '--disable-loop-unrolling']
 GXX_FLAGS = ['-std=c++17', '-O1', '-g', '-fno-access-control', '-w', '-rdynamic', '-pthread']
 CBMC_BASE = ['--unwinding-assertions', '--pointer-overflow-check', '--undefined-shift-check',
-             '--drop-unused-functions', '--no-malloc-may-fail', '--trace', '--json-ui']
+             '--drop-unused-functions', '--no-malloc-may-fail', '--trace', '--json-ui', '--verbosity', '8']
 PRINT_LOCK = threading.Lock()
 
 def log(*a):
     with PRINT_LOCK:
         print(*a, flush=True)
 
-def run(cmd, timeout=None, mem_gb=None, cwd=None, stdout_path=None):
+def run(cmd, timeout=None, mem_gb=None, cwd=None, stdout_path=None, kill_event=None):
     """run cmd; returns (rc, stdout_text, wall_s, maxrss_kb, timed_out)"""
     def pre():
         os.setsid()
@@ -53,7 +53,12 @@ def run(cmd, timeout=None, mem_gb=None, cwd=None, stdout_path=None):
         except Exception as ex:
             res['o'] = b''; res['e'] = str(ex).encode()
     th = threading.Thread(target=waiter); th.start()
-    th.join(timeout)
+    if kill_event is None:
+        th.join(timeout)
+    else:
+        t_end = time.time() + (timeout or 1e9)
+        while th.is_alive() and time.time() < t_end and not kill_event.is_set():
+            th.join(0.5)
     if th.is_alive():
         timed_out = True
         try: os.killpg(p.pid, signal.SIGKILL)
@@ -156,14 +161,19 @@ class HarnessBuild:
     def model_files(self):
         ms = ['env_cbmc.c', 'atomics_seq.c'] + self.h.get('models', [])
         if self.h.get('no_default_atomics'): ms.remove('atomics_seq.c')
-        return [os.path.join(VERIF, 'models', m) for m in ms]
+        files = [os.path.join(VERIF, 'models', m) for m in ms]
+        gen = self.h.get('gen_models')
+        if gen:
+            if not hasattr(self, '_gen'): self._gen = gen(self.dir)
+            files += self._gen
+        return files
     def build_gb(self, reach):
         key = 'reach' if reach else 'main'
         gb = os.path.join(self.dir, 'h.%s.gb' % key)
         cmd = ['goto-cc', '-o', gb, self.c] + self.model_files() + ['-I', os.path.join(VERIF, 'rt'), '-I', os.path.join(VERIF, 'models')]
         cmd += ['-D' + d for d in self.h.get('model_defines', [])]
         cmd.append('-D__CPROVER__')
-        if reach: cmd.append('-DVERIF_REACH')
+        if os.environ.get('VERIF_NO_REACH'): cmd.append('-DVERIF_NO_REACH')
         rc, out, w, _, to = run(cmd, timeout=900)
         if rc != 0 or not os.path.exists(gb):
             raise Inconclusive('goto-cc failed for %s:\n%s' % (self.hname, out[-3000:]))
@@ -250,14 +260,28 @@ class QueryResult:
         self.reach_missing = []; self.n_props = 0; self.lines = []; self.known = []
         self.ub_unconfirmed = []; self.samples = []
 
+_LOOPS = {}
+def loops_of(gb):
+    if gb not in _LOOPS:
+        p = subprocess.run(['cbmc', gb, '--show-loops'], stdout=subprocess.PIPE, stderr=subprocess.DEVNULL)
+        _LOOPS[gb] = re.findall(r'^Loop (\S+):', p.stdout.decode('latin1'), re.M)
+    return _LOOPS[gb]
+
 def cbmc_cmd(gb, q, reach):
     cmd = ['cbmc', gb, '--function', q['entry']]
     base = list(CBMC_BASE)
     if reach:
         base = ['--drop-unused-functions', '--no-malloc-may-fail', '--json-ui', '--no-standard-checks']
     cmd += base
-    if 'unwindset' in q:
-        cmd += ['--unwindset', ','.join('%s:%d' % kv for kv in q['unwindset'].items())]
+    if q.get('unwindset'):
+        # keys are substrings of loop ids (mangled function name + .N); longest match wins
+        us = {}
+        for lid in loops_of(gb):
+            best = None
+            for pat, n in q['unwindset'].items():
+                if pat in lid and (best is None or len(pat) > len(best[0])): best = (pat, n)
+            if best: us[lid] = best[1]
+        if us: cmd += ['--unwindset', ','.join('%s:%d' % kv for kv in us.items())]
     cmd += ['--unwind', str(q.get('unwind', 2))]
     if reach or q.get('no_unwinding_assertions'):
         if '--unwinding-assertions' in cmd: cmd.remove('--unwinding-assertions')
@@ -273,13 +297,37 @@ def run_query(spec, hb, q, args, known):
     qr = QueryResult(q)
     t0 = time.time()
     name = q['name']
-    timeout = q.get('timeout', 300 if args.tier == 'quick' else 1800)
+    timeout = args.timeout or q.get('timeout', 300 if args.tier == 'quick' else 1800)
     mem = q.get('mem_gb', 12 if args.tier == 'quick' else 20)
     try:
-        # ---- main run
-        out_path = os.path.join(hb.dir, 'q_%s.json' % name)
-        cmd = cbmc_cmd(hb.gb['main'], q, False)
-        rc, err, wall, _, to = run(cmd, timeout=timeout, mem_gb=mem, stdout_path=out_path)
+        # ---- main run (portfolio over SAT back ends: first verdict wins)
+        solvers = q.get('solvers') or [q.get('solver', 'minisat')]
+        out_path = None
+        if len(solvers) == 1:
+            out_path = os.path.join(hb.dir, 'q_%s.json' % name)
+            q1 = dict(q, solver=solvers[0])
+            cmd = cbmc_cmd(hb.gb['main'], q1, False)
+            rc, err, wall, _, to = run(cmd, timeout=timeout, mem_gb=mem, stdout_path=out_path)
+            qr.solver = solvers[0]
+        else:
+            done = threading.Event(); box = {}
+            procs = []
+            def one(sv):
+                op = os.path.join(hb.dir, 'q_%s.%s.json' % (name, sv))
+                c = cbmc_cmd(hb.gb['main'], dict(q, solver=sv), False)
+                r = run(c, timeout=timeout, mem_gb=mem, stdout_path=op, kill_event=done)
+                if not r[4] and not done.is_set() and parse_cbmc_json(open(op, errors='replace').read())[0] is not None:
+                    if 'win' not in box:
+                        box['win'] = (sv, op, c, r); done.set()
+                box.setdefault('all', []).append((sv, op, c, r))
+            ths = [threading.Thread(target=one, args=(sv,)) for sv in solvers]
+            for t in ths: t.start()
+            for t in ths: t.join()
+            if 'win' in box:
+                sv, out_path, cmd, (rc, err, wall, _, to) = box['win']; to = False
+            else:
+                sv, out_path, cmd, (rc, err, wall, _, to) = box['all'][0]
+            qr.solver = sv
         qr.wall = wall; qr.cmd = ' '.join(cmd)
         if to:
             qr.verdict = 'INCONCLUSIVE'; qr.detail = 'timeout after %ds' % timeout; return qr
@@ -298,12 +346,15 @@ def run_query(spec, hb, q, args, known):
         if bad:
             qr.verdict = 'INCONCLUSIVE'; qr.detail = 'functions without body (would be silently nondet): ' + ' '.join(sorted(set(bad))); return qr
         qr.n_props = len(results)
-        witness = None; cands = []; unwind_fail = []
+        witness = None; cands = []; unwind_fail = []; reached = set()
+        all_reach = {r.get('description', '')[len('WITNESS reach: '):] for r in results if r.get('description', '').startswith('WITNESS reach: ')}
         for r in results:
             desc = r.get('description', '')
             if r['status'] == 'SUCCESS': continue
             if r['status'] not in ('FAILURE',):
                 qr.verdict = 'INCONCLUSIVE'; qr.detail = 'property %s status %s' % (r.get('property'), r['status']); return qr
+            if desc.startswith('WITNESS reach: '):
+                reached.add(desc[len('WITNESS reach: '):]); continue
             if desc.startswith('WITNESS'):
                 witness = r; continue
             if '.no-body.' in r.get('property', ''):
@@ -356,24 +407,10 @@ def run_query(spec, hb, q, args, known):
                 else:
                     ent['native'] = 'not-reproduced'
             qr.failed.append(ent)
-        # ---- reach run
-        if not q.get('skip_reach') and not args.no_reach:
-            cmd = cbmc_cmd(hb.gb['reach'], q, True)
-            rp = os.path.join(hb.dir, 'r_%s.json' % name)
-            rc, err, wall2, _, to = run(cmd, timeout=timeout, mem_gb=mem, stdout_path=rp)
-            qr.wall += wall2
-            if to:
-                qr.verdict = 'INCONCLUSIVE'; qr.detail = 'reachability run timed out'; return qr
-            rres, rmsgs, _ = parse_cbmc_json(open(rp, errors='replace').read())
-            if rres is None:
-                qr.verdict = 'INCONCLUSIVE'; qr.detail = 'reachability run gave no result: ' + ' | '.join(rmsgs)[-800:]; return qr
-            optional = set(q.get('optional_reach', []))
-            for r in rres:
-                d = r.get('description', '')
-                if d.startswith('WITNESS reach: ') and r['status'] == 'SUCCESS':
-                    lab = d[len('WITNESS reach: '):]
-                    if lab not in optional: qr.reach_missing.append(lab)
-            qr.reach_total = sum(1 for r in rres if r.get('description', '').startswith('WITNESS reach: '))
+        # ---- reachability of every harness assertion (witnesses are part of the same run)
+        optional = set(q.get('optional_reach', []))
+        qr.reach_total = len(all_reach)
+        qr.reach_missing = sorted(l for l in all_reach - reached if l not in optional)
         qr.verdict = 'DONE'
         return qr
     except Inconclusive as e:
@@ -395,6 +432,7 @@ def main():
     ap.add_argument('--no-native', action='store_true')
     ap.add_argument('--no-reach', action='store_true')
     ap.add_argument('--no-evidence', action='store_true')
+    ap.add_argument('--timeout', type=int, help='override per-query timeout (development)')
     args = ap.parse_args()
     seed = int(os.environ.get('VERIF_SEED', '0') or 0)
     t_start = time.time()
@@ -408,8 +446,8 @@ def main():
         if args.replay:
             rc_final = do_replay(spec, args, work); return rc_final
         extra = getattr(spec, 'extra_engine', None)
-        queries = [q for q in spec.QUERIES if (args.tier == 'thorough' or q.get('tier', 'quick') == 'quick')]
-        if args.only: queries = [q for q in queries if q['name'] in args.only or any(q['name'].startswith(o) for o in args.only)]
+        queries = [q for q in spec.QUERIES if (args.tier == 'thorough' or q.get('tier', 'quick') == 'quick' or q['name'] in args.only)]
+        if args.only: queries = [q for q in queries if q['name'] in args.only or any(o.endswith('*') and q['name'].startswith(o[:-1]) for o in args.only)]
         # harness builds needed: (harness, kf-defines)
         builds = {}
         plan = []   # (query, build key, kf or None)
@@ -433,7 +471,7 @@ def main():
             try:
                 hb.build_ir()
                 with concurrent.futures.ThreadPoolExecutor(3) as ex:
-                    fs = [ex.submit(hb.build_gb, False), ex.submit(hb.build_gb, True)]
+                    fs = [ex.submit(hb.build_gb, False)]
                     if not args.no_native: fs.append(ex.submit(hb.build_native))
                     for f in fs: f.result()
             except Inconclusive as e:
@@ -496,7 +534,7 @@ def conclude(spec, args, results, extra_results, known_all, hbs, seed, wall):
         s = {'query': q['name'], 'harness': q['harness'], 'entry': q['entry'], 'unwind': q.get('unwind', 2),
              'unwindset': q.get('unwindset'), 'shape': q.get('shape', ''), 'verdict': None, 'wall_s': round(r.wall, 2),
              'properties_checked': r.n_props, 'sat_vars': r.stats.get('sat_vars'), 'sat_clauses': r.stats.get('sat_clauses'),
-             'solver_s': r.stats.get('decision_s', r.stats.get('solver_s')), 'witness_violated': r.witness_ok,
+             'solver_s': r.stats.get('decision_s', r.stats.get('solver_s')), 'sat_backend': getattr(r, 'solver', None), 'witness_violated': r.witness_ok,
              'witness_trace_replayed_on_real_code': r.witness_replayed}
         if r.verdict == 'INCONCLUSIVE':
             s['verdict'] = 'INCONCLUSIVE'; s['detail'] = r.detail[:600]
